@@ -43,7 +43,7 @@ ANCHORS = [
 FLOORS = {'*': {'schedules': 12000, 'shapes': 1000, 'shapes-with>=2-completion-orders': 80, 'last-element-finishes-first': 50,
                 'max-in-flight>=2:concurrent': 200, 'sequential-mode-shapes': 60, 'points:method': 500, 'points:middleware': 500,
                 'points:error-handler': 200, 'profile:notification': 100, 'profile:plain-method': 100, 'profile:rpc-error': 100,
-                'profile:exception': 100, 'elements:4': 2}}
+                'profile:exception': 100, 'elements:4': 2, 'plain-callable-middleware': 100}}
 
 # (kind, outcome, points)
 PROFILES = [
@@ -55,8 +55,24 @@ PROFILES = [
 CUR = {'sched': None, 'exec': [], 'points': {}}
 
 
-def build(shape, concurrent):
+def build(shape, concurrent, plain_mw=False):
     points = {i: set(PROFILES[p][2]) for i, p in enumerate(shape)}
+
+    def mw_plain(request, context, handler):
+        # AsyncMiddlewareType only asks for a callable returning an awaitable: the synchronous part runs at call time
+        e = request.params[0]
+        s = CUR['sched']
+        s.mark('start', e)
+
+        async def rest():
+            if 'mw-pre' in points[e]:
+                await s.point(e, 'mw-pre')
+            resp = await handler(request, context)
+            if 'mw-post' in points[e]:
+                await s.point(e, 'mw-post')
+            s.mark('finish', e)
+            return resp
+        return rest()
 
     async def mw(request, context, handler):
         e = request.params[0]
@@ -76,7 +92,8 @@ def build(shape, concurrent):
             await CUR['sched'].point(e, 'eh')
         return error
 
-    disp = pjrpc.server.AsyncDispatcher(middlewares=[mw], error_handlers={None: [eh]}, concurrent_batch=concurrent)
+    disp = pjrpc.server.AsyncDispatcher(middlewares=[mw_plain if plain_mw else mw], error_handlers={None: [eh]},
+                                        concurrent_batch=concurrent)
 
     def outcome(tok, what):
         if what == 'ok':
@@ -138,13 +155,15 @@ def same_response(want, got):
     return True
 
 
-def run_shape(ctx, shape, concurrent):
-    disp, text, want = build(shape, concurrent)
+def run_shape(ctx, shape, concurrent, plain_mw=False):
+    disp, text, want = build(shape, concurrent, plain_mw)
+    if plain_mw:
+        ctx.hit('plain-callable-middleware')
     n = len(shape)
     prefix = []
     orders = set()
     n_sched = 0
-    flag = 'concurrent' if concurrent else 'sequential'
+    flag = ('concurrent' if concurrent else 'sequential') + (':plain-mw' if plain_mw else '')
     ctx.hit('shapes')
     if n == 4:
         ctx.hit('elements:4')
@@ -187,7 +206,7 @@ def run_shape(ctx, shape, concurrent):
                     max_live = max(max_live, len(live))
                 elif e[0] == 'finish':
                     live.discard(e[1])
-            cls = (tuple(shape), concurrent, finish_order)
+            cls = (tuple(shape), concurrent, plain_mw, finish_order)
             wit = dict(shape=shape_desc, concurrent_batch=concurrent, schedule=s.taken, request=text, returned=out,
                        trace=[list(e) for e in trace][:80], executions=list(CUR['exec']))
             if problem is None:
@@ -267,6 +286,9 @@ def gen(ctx):
         yield 'shape', {'shape': shape, 'concurrent': True}
         if full or len(shape) <= 3 or rng.random() < 0.5:
             yield 'shape', {'shape': shape, 'concurrent': False}
+        if len(shape) <= 2 or rng.random() < (0.5 if full else 0.15):
+            yield 'shape', {'shape': shape, 'concurrent': False, 'plain_mw': True}
+            yield 'shape', {'shape': shape, 'concurrent': True, 'plain_mw': True}
 
 
 KINDS = {'shape': run_shape}
